@@ -259,7 +259,7 @@ Section Orth.
             if is111 T then
               let t := get (sel T 0) 0 0 in
               let sc := cabs t in
-              Some (map_last (scale_site (cdivr t sc)) As', qs', sc)
+              Some (map_last (scale_site (R:=CF) (cdivr t sc)) As', qs', sc)
             else None
         | None => None
         end
